@@ -44,6 +44,9 @@ def gen_operand(rng, places, arith=0.25):
         return ["b", op, ["p", rng.choice(places)],
                 ["c", rng.randint(0, 255)] if rng.random() < 0.6
                 else ["p", rng.choice(places)]]
+    if r < arith + 0.06:
+        # -x / abs(x) of a place that is read again afterwards
+        return [rng.choice(["neg", "abs"]), ["p", rng.choice(places)]]
     return ["p", rng.choice(places)]
 
 
